@@ -2,11 +2,11 @@ package props
 
 import (
 	"fmt"
-	"os"
 	"go/ast"
 	"go/constant"
 	"go/token"
 	"go/types"
+	"os"
 	"strconv"
 	"unicode"
 
